@@ -82,8 +82,10 @@ def pred2_term(alg, v1, v2, pred):
 
 def same_value(alg, got, exp):
     """The returned value IS the stored value."""
-    if alg.symbolic:
+    if alg.symbolic and isinstance(exp, SEnum):
         return alg.const(got is exp)
+    if alg.symbolic:
+        return alg.const(type(got) is type(exp) and got == exp)
     return alg.const(type(got) is type(exp) and got == exp)
 
 
@@ -96,7 +98,12 @@ class C19(Case):
         objs = []
         for i in range(n):
             o = VObj(name="o%d" % i)
-            o.v = mk.enum("o%d.v" % i, ALPHA)
+            if sp.get("concrete") and sp["kind"] != "flatten":
+                # the value itself is a real Python object chosen through the solver by an n-way fork (no proxy): identity
+                # tests inside the engine (`is None`, sentinels) see exactly what a user's data would show them
+                o.v = ALPHA[mk.choice("o%d.v" % i, len(ALPHA))]
+            else:
+                o.v = mk.enum("o%d.v" % i, ALPHA)
             o.w = mk.enum("o%d.w" % i, ALPHA)
             o.c = mk.enum("o%d.c" % i, CONTAINERS)
             o.d = {"k": o.v}
@@ -104,7 +111,10 @@ class C19(Case):
             if sp["kind"].startswith("chain"):
                 o.nm = mk.enum("o%d.nm" % i, NAMES)
             if sp["kind"] == "flatten":
-                o.items = [mk.enum("o%d.e%d" % (i, j), ALPHA) for j in range(2)]
+                if sp.get("concrete"):
+                    o.items = [ALPHA[mk.choice("o%d.e%d" % (i, j), len(ALPHA))] for j in range(2)]
+                else:
+                    o.items = [mk.enum("o%d.e%d" % (i, j), ALPHA) for j in range(2)]
             objs.append(o)
         data = dict(objs=objs, res=None)
         k = sp["kind"]
@@ -344,6 +354,12 @@ def shapes(tier, seed):
         out.append(dict(kind="head", access=access, n=n))
         out.append(dict(kind="cond_position", access=access, n=n))
         out.append(dict(kind="not_cond_position", access=access, n=n))
+    for kk in ("select_entity", "select", "select_cond", "head"):
+        out.append(dict(kind=kk, access="attr", n=2, concrete=True))
+    out.append(dict(kind="flatten", n=1, concrete=True))
+    out.append(dict(kind="flatten", n=1, with_parent=True, concrete=True))
+    for li in (0, 6):
+        out.append(dict(kind="cmp_lit", op="eq", lit=li, side="r", access="attr", n=2, concrete=True))
     for kk in ("chain", "chain_not", "chain_and", "chain_args", "chain_or"):
         out.append(dict(kind=kk, n=n))
     out.append(dict(kind="cmp_cross", op="eq", n=2))
